@@ -32,7 +32,7 @@ from cryptoparser.common.base import (
     VariantParsable,
     VariantParsableExact,
 )
-from cryptoparser.common.exception import InvalidType
+from cryptoparser.common.exception import InvalidType, NotEnoughData
 from cryptoparser.common.field import (
     FieldParsableBase,
     FieldValueBase,
@@ -417,7 +417,7 @@ class FieldHashTypeParams(CryptoDataParamsEnumString):
     pass
 
 
-class StringEnumHashParsableBase(StringEnumParsable):
+class StringEnumHashParsableBase(StringEnumCaseInsensitiveParsable):
     @classmethod
     def from_hash_algorithm(cls, hash_algorithm):
         return cls[hash_algorithm.name]
@@ -487,9 +487,11 @@ class ContentSecurityPolicySourceNonce(ParsableBase, Serializable):
         parser = ParserText(parsable)
 
         try:
-            parser.parse_string('prefix', cls._PREFIX)
-        except InvalidValue as e:
+            parser.parse_string_by_length('prefix', len(cls._PREFIX), len(cls._PREFIX))
+        except (InvalidValue, NotEnoughData) as e:
             six.raise_from(InvalidType(), e)
+        if parser['prefix'].lower() != cls._PREFIX:
+            raise InvalidType()
 
         del parser['prefix']
 
@@ -583,7 +585,7 @@ class ContentSecurityPolicySourceHost(ParsableBase, Serializable):
         return ContentSecurityPolicySourceType.HOST
 
 
-class ContentSecurityPolicySourceKeyword(StringEnumParsable, enum.Enum):
+class ContentSecurityPolicySourceKeyword(StringEnumCaseInsensitiveParsable, enum.Enum):
     NONE = FieldValueStringEnumParams(code='\'none\'')
     REPORT_SAMPLE = FieldValueStringEnumParams(code='\'report-sample\'')
     SELF = FieldValueStringEnumParams(code='\'self\'')
